@@ -26,6 +26,9 @@ use crate::{
 pub enum Arg {
 	Str(String),
 	Code(String),
+	/// code evaluated by the embedder on the same state beforehand and handed over as a value (Rust API only;
+	/// a command line passes it as code)
+	Val(String),
 }
 
 #[derive(Serialize, Deserialize, Clone, Debug, PartialEq, Eq)]
@@ -48,6 +51,10 @@ pub struct Prog {
 	pub depth: Option<usize>,
 }
 impl Prog {
+	/// a program that belongs to no generated family
+	pub fn adhoc(family: &str, code: String) -> Self {
+		Self::new(family, code)
+	}
 	fn new(family: &str, code: String) -> Self {
 		Self {
 			family: family.to_owned(),
@@ -126,7 +133,11 @@ impl ImportResolver for MapResolver {
 		let key = resolved.path().map(|p| p.to_string_lossy().into_owned()).unwrap_or_default();
 		self.loads.borrow_mut().push(key.clone());
 		match self.files.borrow().get(&key) {
-			Some(t) => Ok(t.clone().into_bytes()),
+			// a text that starts with the marker stands for raw bytes (one char = one byte): files that are not UTF-8
+			Some(t) => Ok(match t.strip_prefix(RAW_BYTES_MARKER) {
+				Some(raw) => raw.chars().map(|c| c as u32 as u8).collect(),
+				None => t.clone().into_bytes(),
+			}),
 			None => Err(ErrorKind::ResolvedFileNotFound(resolved.clone()).into()),
 		}
 	}
@@ -214,6 +225,19 @@ impl Host {
 		);
 		host
 	}
+	fn tla_arg(&self, a: &Arg) -> TlaArg {
+		match a {
+			Arg::Str(v) => TlaArg::String(v.as_str().into()),
+			Arg::Code(c) => TlaArg::InlineCode(c.clone()),
+			Arg::Val(c) => {
+				let _entered = self.state.try_enter();
+				match self.state.evaluate_snippet("<arg>", c.as_str()) {
+					Ok(v) => TlaArg::Val(v),
+					Err(_) => TlaArg::InlineCode(c.clone()),
+				}
+			}
+		}
+	}
 	fn std_ctx(&self) -> &jrsonnet_stdlib::ContextInitializer {
 		self.state
 			.context_initializer()
@@ -231,10 +255,7 @@ impl Host {
 		for (k, v) in &prog.tla {
 			tla.insert(
 				k.as_str().into(),
-				match v {
-					Arg::Str(v) => TlaArg::String(v.as_str().into()),
-					Arg::Code(c) => TlaArg::InlineCode(c.clone()),
-				},
+				self.tla_arg(v),
 			);
 		}
 		apply_tla(&tla, val)
@@ -247,16 +268,12 @@ impl Host {
 		}
 		drop(f);
 		let ctx = self.std_ctx();
+		// values handed over by the embedder are computed before the settings are borrowed
+		let ext: Vec<(IStr, TlaArg)> = prog.ext.iter().map(|(k, v)| (k.as_str().into(), self.tla_arg(v))).collect();
 		let mut s = ctx.settings_mut();
 		s.ext_vars.clear();
-		for (k, v) in &prog.ext {
-			s.ext_vars.insert(
-				k.as_str().into(),
-				match v {
-					Arg::Str(v) => TlaArg::String(v.as_str().into()),
-					Arg::Code(c) => TlaArg::InlineCode(c.clone()),
-				},
-			);
+		for (k, v) in ext {
+			s.ext_vars.insert(k, v);
 		}
 	}
 	/// Evaluate like the CLI does: evaluate snippet, apply TLAs, manifest with the CLI JSON format.
@@ -271,16 +288,12 @@ impl Host {
 		}
 		{
 			let ctx = self.std_ctx();
+			// values handed over by the embedder are computed before the settings are borrowed
+			let ext: Vec<(IStr, TlaArg)> = prog.ext.iter().map(|(k, v)| (k.as_str().into(), self.tla_arg(v))).collect();
 			let mut s = ctx.settings_mut();
 			s.ext_vars.clear();
-			for (k, v) in &prog.ext {
-				s.ext_vars.insert(
-					k.as_str().into(),
-					match v {
-						Arg::Str(v) => TlaArg::String(v.as_str().into()),
-						Arg::Code(c) => TlaArg::InlineCode(c.clone()),
-					},
-				);
+			for (k, v) in ext {
+				s.ext_vars.insert(k, v);
 			}
 		}
 		let _guard = limit.map(limit_stack_depth);
@@ -291,10 +304,7 @@ impl Host {
 			for (k, v) in &prog.tla {
 				tla.insert(
 					k.as_str().into(),
-					match v {
-						Arg::Str(v) => TlaArg::String(v.as_str().into()),
-						Arg::Code(c) => TlaArg::InlineCode(c.clone()),
-					},
+					self.tla_arg(v),
 				);
 			}
 			let val = apply_tla(&tla, val)?;
@@ -338,8 +348,15 @@ pub const LIB_CYC_A: &str = "/lib/cyc_a.libsonnet";
 pub const LIB_CYC_B: &str = "/lib/cyc_b.libsonnet";
 pub const LIB_ASSERTING: &str = "/lib/asserting.libsonnet";
 
+/// library texts starting with this marker are served as raw bytes (latin-1 reading of the rest)
+pub const RAW_BYTES_MARKER: &str = "\u{1}RAW:";
+
 fn lib_texts() -> BTreeMap<String, String> {
 	let mut m = BTreeMap::new();
+	// not valid UTF-8
+	m.insert("/lib/blob.bin".to_owned(), format!("{RAW_BYTES_MARKER}\u{ff}\u{fe}a\u{0}\u{c3}"));
+	// valid UTF-8, valid Jsonnet
+	m.insert("/lib/text.bin".to_owned(), "40 + 2".to_owned());
 	m.insert(
 		LIB_UTIL.to_owned(),
 		"{\n  local sum(n) = if n == 0 then 0 else n + sum(n - 1),\n  sum:: sum,\n  table: { small: sum(6), big: sum(60) },\n  names: std.objectFields(self.table),\n  twice(x):: [x, x],\n}\n"
@@ -376,7 +393,9 @@ fn pick_distinct<'a>(rng: &mut Rng, from: &[&'a str], n: usize) -> Vec<&'a str> 
 	v
 }
 
-pub const FAMILIES: [&str; 30] = [
+pub const FAMILIES: [&str; 32] = [
+	"std-edge",
+	"import-binary",
 	"native",
 	"call-errors",
 	"type-error-on-container",
@@ -602,7 +621,29 @@ pub fn gen_family(rng: &mut Rng, family: &str) -> Prog {
 			p
 		}
 		"ext" => {
-			let variant = rng.below(7);
+			let variant = rng.below(10);
+			if variant >= 7 {
+				// values (not code) handed over by the embedder: an object, a function and a closure over std, evaluated
+				// on the same state; the variable may stay unread
+				let mut p = Prog::new(
+					family,
+					match variant {
+						7 => "[std.extVar('o').n, std.extVar('f')(2)]",
+						8 => "1 + 1",
+						_ => "std.extVar('o').self_ref.n + std.length(std.extVar('o').names)",
+					}
+					.to_owned(),
+				);
+				p.ext.push(("o".into(), Arg::Val("{ n: 20, self_ref: self, names: std.objectFields(self), f(x):: std.length(self.names) + x }".into())));
+				p.ext.push(("f".into(), Arg::Val("local k = { v: 3 }; function(x) std.max(x, k.v)".into())));
+				match variant {
+					7 => p.expect = Some("[20,3]".to_owned()),
+					8 => p.expect = Some("2".to_owned()),
+					_ => p.expect = Some("23".to_owned()),
+				}
+				p.cyclic = true;
+				return p;
+			}
 			if variant >= 4 {
 				// code variables that read other variables
 				let mut p = Prog::new(family, "[std.extVar('c'), std.extVar('b'), std.extVar('c')]".to_owned());
@@ -954,6 +995,35 @@ pub fn gen_family(rng: &mut Rng, family: &str) -> Prog {
 			let mut p = Prog::new(family, code).order();
 			if failing > 0 && consumer != 9 {
 				p.expect_err = None;
+			}
+			p
+		}
+		"std-edge" => Prog::new(family, crate::stdedge::gen(rng)),
+		"import-binary" => {
+			// one file through all three kinds of import, in every order, also when it is not UTF-8: the
+			// failing conversions must leave the state's file cache usable
+			let variant = rng.below(10);
+			let code = match variant {
+				0 => "std.length(importbin 'blob.bin')",
+				1 => "importstr 'blob.bin'",
+				2 => "import 'blob.bin'",
+				3 => "[std.length(importbin 'blob.bin'), std.length(importstr 'blob.bin')]",
+				4 => "local b = importbin 'blob.bin'; [b[0], std.length(importstr 'text.bin'), import 'text.bin']",
+				5 => "[std.length(importbin 'text.bin'), std.length(importstr 'text.bin'), import 'text.bin']",
+				6 => "{ a: std.length(importbin 'blob.bin'), b: import 'blob.bin' }",
+				7 => "[import 'text.bin', std.length(importbin 'text.bin'), importstr 'text.bin']",
+				8 => "std.length(std.decodeUTF8(importbin 'blob.bin'))",
+				_ => "[(importbin 'blob.bin')[4], std.length(importbin 'blob.bin')]",
+			};
+			let mut p = Prog::new(family, code.to_owned());
+			p.libs = lib_texts();
+			match variant {
+				0 => p.expect = Some("5".to_owned()),
+				4 => p.expect = Some("[255,6,42]".to_owned()),
+				5 => p.expect = Some("[6,6,42]".to_owned()),
+				7 => p.expect = Some("[42,6,\"40 + 2\"]".to_owned()),
+				9 => p.expect = Some("[195,5]".to_owned()),
+				_ => {}
 			}
 			p
 		}
